@@ -18,6 +18,7 @@ from liquid.builtin.expressions import Parameter
 from liquid.builtin.expressions import parse_arguments
 from liquid.builtin.expressions import parse_name
 from liquid.parser import get_parser
+from liquid.stringify import to_liquid_string
 from liquid.tag import Tag
 from liquid.token import TOKEN_TAG
 from liquid.undefined import Undefined
@@ -149,7 +150,7 @@ class CallNode(Node):
         )
 
         if isinstance(macro, Undefined):
-            return buffer.write(str(macro))
+            return buffer.write(to_liquid_string(macro, context.autoescape))
 
         args = self.macro_args(macro)
 
@@ -186,7 +187,7 @@ class CallNode(Node):
         )
 
         if is_undefined(macro):
-            return buffer.write(str(macro))
+            return buffer.write(to_liquid_string(macro, context.autoescape))
 
         assert isinstance(macro, Macro)
         args = self.macro_args(macro)
